@@ -422,6 +422,13 @@ func check(argv []string) int {
 
 	// output
 	exit := 0
+	// findings demonstrated on the real code (demo test under findings/) that no contract reaches:
+	// listed, never suppressing anything
+	for _, f := range findings {
+		if f.Property == *prop && f.Status == "known" && strings.HasPrefix(f.Obligation, "demo:") {
+			knownHit = append(knownHit, f)
+		}
+	}
 	for _, f := range knownHit {
 		fmt.Printf("KNOWN-FINDING: property=%s %s %s\n", *prop, f.Obligation, f.What)
 	}
